@@ -342,4 +342,33 @@ theorem file_accepted (nf : Nat) (hnf : 0 < nf) (fields : List Nat) (eps : List 
       subst hp
       exact hx i r q hr he
 
+/-! ### a whole level -/
+
+theorem firstBad_all_good (l : List Verdict) (h : ∀ v ∈ l, v = .good) : firstBad l = .good := by
+  induction l with
+  | nil => rfl
+  | cons v vs ih =>
+    have hv := h v List.mem_cons_self
+    subst hv
+    simp only [firstBad]
+    exact ih (fun w hw => h w (List.mem_cons_of_mem _ hw))
+
+/-- the rows of the boxes of file `n`, sorted by offset (what `levelOK` hands to `fileOK`) -/
+def rowsOf (entries : List Entry) (rows : List (List (V × V))) (n : String) : List (List (V × V)) :=
+  (sortKey (((entries.zip rows).filter (·.1.file == n)).map fun p => (p.1.offset, p.2))).map (·.2)
+
+/-- **C03, binary data, a whole level**: when every binary file the level header names is there and passes against the rows
+    of its boxes sorted by offset, the level passes -/
+theorem levelOK_accepted (fields : List Nat) (entries : List Entry) (rows : List (List (V × V))) (files : List (String × Bytes))
+    (h : ∀ n ∈ dedup (entries.map (·.file)), ∃ raw, files.lookup n = some raw ∧
+      fileOK fields (rowsOf entries rows n) (scanAll raw (raw.length + 1) 0) = .good) :
+    levelOK fields entries rows files = .good := by
+  unfold levelOK
+  apply firstBad_all_good
+  intro v hv
+  obtain ⟨n, hn, rfl⟩ := List.mem_map.mp hv
+  obtain ⟨raw, hl, hg⟩ := h n hn
+  simp only [hl]
+  exact hg
+
 end TasteData
